@@ -8,7 +8,7 @@
 
 use crate::rng::Rng;
 
-pub const BRANCHES: usize = 9;
+pub const BRANCHES: usize = 12;
 pub const GLUES: usize = 19;
 
 #[derive(Clone, Debug)]
@@ -48,7 +48,8 @@ impl Shape {
     }
 }
 
-pub const BRANCH_NAMES: [&str; BRANCHES] = ["if", "if-zero", "match3", "match5", "label-goto", "call-of-if", "known-match", "object-by-if", "match-of-match"];
+pub const BRANCH_NAMES: [&str; BRANCHES] =
+    ["if", "if-zero", "match3", "match5", "label-goto", "call-of-if", "known-match", "object-by-if", "match-of-match", "if-with-jumping-label-branch", "if-with-exit-branch", "match-with-jumping-clauses"];
 pub const GLUE_NAMES: [&str; GLUES] =
     [
     "let", "else-branch", "clause", "operand", "print", "call-argument", "closure", "destructor", "objects-by-match", "label-result",
@@ -68,7 +69,12 @@ fn branch(b: usize, i: usize, x: &str) -> String {
         5 => format!("id(if {x} <= {i} {{ {x} }} else {{ {i} }})"),
         6 => format!("(B.case {{ A => {x}, B => {x} + {i}, C => 0 }})"),
         7 => format!("((if {x} == {i} {{ obj({x}) }} else {{ obj({i}) }}).m2({x}))"),
-        _ => format!("((mk({x}).case {{ A => B, B => C, C => A }}).case {{ A => {i}, B => {x}, C => 1 }})"),
+        8 => format!("((mk({x}).case {{ A => B, B => C, C => A }}).case {{ A => {i}, B => {x}, C => 1 }})"),
+        // branches that leave through a jump: a label block that always jumps to its own label
+        // (which is a use of the continuation), an exit (which is not)
+        9 => format!("(if {x} < {i} {{ label l{i} {{ goto l{i}({i}) }} }} else {{ {x} + 1 }})"),
+        10 => format!("(if {x} == {i} {{ exit {i} }} else {{ {x} }})"),
+        _ => format!("(mk({x}).case {{ A => label l{i} {{ goto l{i}({x}) }}, B => exit {i}, C => {x} + 1 }})"),
     }
 }
 
